@@ -42,6 +42,44 @@ CHECKS = {
         ref="4/C15", technique="vsym bounded symbolic integers: solver-driven exhaustive case split into the real DictList code"),
 }
 
+CHECKS.update({
+    "C06": dict(
+        text="Bounded symbolic execution of single/double reaction and gene deletions, find_essential_genes/reactions and linear-MOMA "
+             "deletions (serial) on the stub: exactly one row per unordered combination, status optimal iff the independently "
+             "knocked-out problem (reactions chosen by our own rule evaluator) has an optimum, growth = that optimum or NaN, "
+             "essential sets = entities whose knocked-out optimum is infeasible or below the threshold, MOMA growth = original "
+             "objective at some minimal-adjustment solution (existential, witnessed by the recorded stub primal), model unchanged; "
+             "for every value of the symbolic bounds.",
+        note="Bounded: template T8 (4 reactions, 4 genes) and T9 (forced drain), 1-3 reactions with symbolic bounds. Outside: "
+             "method room / linear room (MILP, bilinear) and quadratic moma (no QP solver); processes>1 is C14. " + NOTE_COMMON,
+        ref="4/C06"),
+    "C07": dict(
+        text="Bounded symbolic execution of Gene.knock_out / knock_out_model_genes / Reaction.knock_out inside and outside (nested) "
+             "contexts: for every rule shape (16 and/or shapes, depth<=3, shared/duplicate/absorbing genes), every subset of genes "
+             "(symbolic flags), order and API variant, and every value of the symbolic original bounds: bounds are (0,0) iff the "
+             "independent truth table says the rule is false, all other bounds are proved unchanged, functional flags agree, solver "
+             "variable bounds follow, everything is restored on (inner and outer) context exit.",
+        note="Bounded: <=4 genes, <=2 ruled reactions + one rule-less, shapes from a fixed list. " + NOTE_COMMON, ref="4/C07"),
+    "C08": dict(
+        text="Symbolic knock-out sets (one z3 Bool per gene, forked lazily by the real short-circuit evaluation) through GPR.from_string/"
+             "eval/to_string/copy/pickle/as_symbolic/from_symbolic/__eq__ and remove_genes: eval equals the independent truth table for "
+             "all knock-out sets, genes = leaves, every round trip keeps genes, equality and truth table, == implies logical equivalence "
+             "(z3 over all knock-out sets), remove_genes leaves rules equivalent to old[R:=false]. Identifiers, shapes and spellings are "
+             "enumerated exhaustively within the stated tables.",
+        note="Strings are concrete on each path (Python's parser is C): z3 decides the path tree and the Boolean equivalences. "
+             "Factorised bound: 60 awkward identifiers x 5 contexts, 16 shapes over plain ids, pairs of awkward ids only in depth<=2 "
+             "shapes; ids containing blanks, cobrapy's own escape tokens, or equal to AND/OR are outside the supported class. "
+             + NOTE_COMMON, ref="4/C08"),
+    "C09": dict(
+        text="Bounded symbolic execution of pfba/add_pfba/fix_objective_as_constraint and moma/add_moma(linear) on the stub: the returned "
+             "fluxes are steady-state and in bounds, keep the objective at the requested fraction of the true optimum, total |flux| equals "
+             "the minimum of an independent LP with |.| auxiliaries (own KKT certificate), objective_value equals it, index = requested "
+             "reactions; linear MOMA: feasible, distance to the given reference minimal, objective_value equals it; for every value of "
+             "the symbolic bounds and with the reference itself symbolic (taken from the stub).",
+        note="NOT claimed: ROOM in both variants (MILP binaries / bilinear coefficients) and quadratic MOMA (no QP solver) - stated as "
+             "outside. Bounded: templates T1-T4,T7 with up to all bounds symbolic. " + NOTE_COMMON, ref="4/C09"),
+})
+
 NA = {
     "C16": "samplers are float64 numpy linear algebra (SVD null space, data-dependent products, re-projection) driven by a "
            "PRNG; no symbolic value survives them and re-implementing them would not be executing the real code "
